@@ -144,11 +144,11 @@ func cut(m []byte, n int) []byte {
 	return m
 }
 
-const ruleBridge = "rapid-drawn history over one test.Bridge with a collecting reader on each endpoint (reader buffer 4 or 4096 bytes): write(dir, 0 or 4..2000 bytes, class byte for the filter), DropNextNWrites(0..3), ReorderNextNWrites(1..4, also repeatedly), Drop(offset<=len, n), Reorder, Filter(reject class k | nil), Tick, Process; in a quarter of the histories the readers start at a drawn later step and every Tick before that must return 0 and leave both queues as they are; a model applies the script (drop counter, then reorder batch, then filter) to two queues; after every Process the readers must have received exactly the model's sequence (cut to the reader's buffer), and over the whole run nothing is duplicated or invented; where the documentation leaves the combination unspecified (drop counter and reorder batch both armed, filter vs withheld message, re-arming a half-filled batch) the direction falls back to the weak oracle (sub-multiset, integrity) only; non-trivial = >=2 completed reorder batches on one direction, or a reorder batch combined with drop/filter/Drop/Reorder; distinct by hash of the step list"
+const ruleBridge = "rapid-drawn history over one test.Bridge with a collecting reader on each endpoint (reader buffer 4 or 4096 bytes): write(dir, 0 or 4..2000 bytes, class byte for the filter), DropNextNWrites(0..3), ReorderNextNWrites(1..4, also repeatedly), Drop(offset<=len, n), Reorder, Filter(reject class k | nil), Tick, Process, and in a quarter of the histories one run of 60..140 writes in one direction; in a quarter of the histories the readers start at a drawn later step and every Tick before that must return 0 and leave both queues as they are; a model applies the script (drop counter, then reorder batch, then filter) to two queues; after every Process the readers must have received exactly the model's sequence (cut to the reader's buffer), and over the whole run nothing is duplicated or invented; where the documentation leaves the combination unspecified (drop counter and reorder batch both armed, filter vs withheld message, re-arming a half-filled batch) the direction falls back to the weak oracle (sub-multiset, integrity) only; non-trivial = >=2 completed reorder batches on one direction, or a reorder batch combined with drop/filter/Drop/Reorder; distinct by hash of the step list"
 
 func TestC18Bridge(t *testing.T) {
 	r := ev.New("C18", "bridge", ruleBridge)
-	r.Essential = []string{"reorder-batches>=2", "reorder/n=1", "op/Drop", "op/Reorder", "op/Filter", "truncating-reader", "idle-tick", "readers-started-late"}
+	r.Essential = []string{"reorder-batches>=2", "reorder/n=1", "op/Drop", "op/Reorder", "op/Filter", "truncating-reader", "idle-tick", "readers-started-late", "long-run-of-writes"}
 	r.MinForEssential = 300
 	r.Check(t, func(t *rapid.T, c *ev.Case) {
 		br := test.NewBridge()
@@ -324,7 +324,31 @@ func TestC18Bridge(t *testing.T) {
 		}
 
 		n := rapid.IntRange(1, 50).Draw(t, "steps")
+		// a quarter of the histories contain one long run of writes in one direction (60..140
+		// messages queue up before anything is handed over) while the other direction goes on
+		burstAt := -1
+		if rapid.IntRange(0, 3).Draw(t, "burst") == 0 {
+			burstAt = rapid.IntRange(0, n-1).Draw(t, "burstAt")
+		}
 		for i := 0; i < n; i++ {
+			if i == burstAt {
+				bd := rapid.IntRange(0, 1).Draw(t, "burstDir")
+				k := rapid.IntRange(60, 140).Draw(t, "burstLen")
+				for j := 0; j < k; j++ {
+					serial++
+					msg := mkMsg(j%4, serial, 4+j%17)
+					if nn, err := conns[bd].Write(append([]byte(nil), msg...)); err != nil || nn != len(msg) {
+						t.Fatalf("C18: Write of %d bytes on endpoint %d returned %d,%v", len(msg), bd, nn, err)
+					}
+					dm[bd].write(msg, serial)
+				}
+				if dm[bd].strict && br.Len(bd) != len(dm[bd].queue) {
+					t.Fatalf("C18: after a run of %d writes on direction %d the bridge queues %d messages, the script implies %d", k, bd, br.Len(bd), len(dm[bd].queue))
+				}
+				c.Op("burst dir%d x%d", bd, k)
+				c.Label("long-run-of-writes")
+				t.Logf("step %d: burst of %d writes on direction %d", i, k, bd)
+			}
 			if i == lateAt {
 				startReaders()
 				c.Label("readers-started-late")
